@@ -248,6 +248,12 @@ impl Space for Compiled {
     }
 }
 
+pub fn spaces(_env: &Env) -> Vec<Box<dyn Space>> {
+    let mut v: Vec<Box<dyn Space>> = vec![Box::new(Compiled)];
+    v.extend(crate::checks::c19_ffi::spaces());
+    v
+}
+
 pub fn run(env: &Env) -> i32 {
     let mut rep = Report::new(
         env,
